@@ -21,5 +21,6 @@ PROP = Property(
                  "dns:// URIs are modelled for scheme://host[:port][?tcpport=N] only; other URIs are classed unmodelled-uri (robustness only)",
                  "hosts file: robustness and metamorphic oracle only, no model",
                  "memory allocation is assumed to succeed (ENOMEM paths not modelled)"],
+    generated_fns=["src/lib/ares_update_servers.c:ares_sconfig_get_port", "src/lib/ares_update_servers.c:ares_server_use_uri"],
     rule="generated system configurations (files, environment) with junk lines of one grammar class inserted; non-trivial = every class except trivial-*; distinct by case text",
 )
